@@ -114,7 +114,7 @@ func encodeTar(hdrs []RawHdr, format string) ([]byte, error) {
 		if err := tw.WriteHeader(th); err != nil {
 			return nil, err
 		}
-		if th.Typeflag == tar.TypeReg || th.Typeflag == tar.TypeRegA {
+		if th.Typeflag == tar.TypeReg || th.Typeflag == tar.TypeRegA || ((th.Typeflag == 'D' || th.Typeflag == 'V') && len(h.Content) > 0) {
 			if _, err := tw.Write(h.Content); err != nil {
 				return nil, err
 			}
@@ -261,7 +261,7 @@ func decodeReaderForModel(rd io.Reader) (string, string) {
 		}
 		ch := ""
 		bodyOk := "1"
-		if h.Typeflag == tar.TypeReg || h.Typeflag == tar.TypeRegA {
+		if h.Typeflag == tar.TypeReg || h.Typeflag == tar.TypeRegA || h.Typeflag == tar.TypeGNUSparse {
 			body, err := io.ReadAll(tr)
 			if err != nil {
 				bodyOk = "0"
@@ -475,15 +475,20 @@ func unpackEngine(c *Ctx) {
 		"unpack tar " + lossless + " gnu none " + RawHdr{Name: "\x1f\x8b\x08name", Typeflag: '0', Mode: 0644}.tok(),
 		"unpack tar " + lossless + " - none " + RawHdr{Name: "\xfd7zXZ", Typeflag: '5', Mode: 0755}.tok() + ";" + RawHdr{Name: "\xfd7zXZ/f", Typeflag: '0', Mode: 0644}.tok(),
 		"unpack tar " + lossless + " pax none " + RawHdr{Name: "BZh9", Typeflag: '2', Link: "x", Mode: 0777}.tok(),
+		// GNU dialect entries: a volume label ('V', names the archive), a dumpdir ('D', a directory of an incremental archive,
+		// with a listing as its body), an old-style sparse file ('S')
+		"unpack tar " + lossless + " gnu none " + RawHdr{Name: "MYLABEL", Typeflag: 'V'}.tok() + ";" + RawHdr{Name: "./", Typeflag: '5', Mode: 0755}.tok() + ";" + RawHdr{Name: "./f", Typeflag: '0', Mode: 0644, Content: []byte("x")}.tok(),
+		"unpack tar " + lossless + " gnu none " + RawHdr{Name: "./", Typeflag: 'D', Mode: 0755, Content: []byte("Yf\x00\x00")}.tok() + ";" + RawHdr{Name: "./f", Typeflag: '0', Mode: 0644, Content: []byte("x")}.tok() + ";" + RawHdr{Name: "./d/", Typeflag: 'D', Mode: 0750, Content: []byte("\x00")}.tok(),
+		"unpack tar " + lossless + " gnu none " + RawHdr{Name: "./", Typeflag: '5', Mode: 0755}.tok() + ";" + RawHdr{Name: "./sp", Typeflag: 'S', Mode: 0644}.tok(),
 	}
 	for _, op := range corpus {
 		c.Emit2(op, unpackExec)
 	}
 	// the magic-number names are well-formed archives: they must be accepted (C05), not merely agree with the model
 	for _, op := range corpus {
-		if strings.Contains(op, hx("BZh")) || strings.Contains(op, hx("\x1f\x8b\x08")) || strings.Contains(op, hx("\xfd7zXZ")) {
+		if strings.Contains(op, hx("BZh")) || strings.Contains(op, hx("\x1f\x8b\x08")) || strings.Contains(op, hx("\xfd7zXZ")) || strings.Contains(op, hx("MYLABEL")) || strings.Contains(op, fmt.Sprintf(",%d,", 'D')) {
 			if parts := strings.SplitN(unpackExec(c, op), "\x00", 2); len(parts) == 2 && !strings.HasPrefix(parts[1], "ok ") {
-				c.PropFail("valid-archive-refused", "an uncompressed tar whose first entry name begins like a compression magic number was not accepted: "+parts[1], op)
+				c.PropFail("valid-archive-refused", "a well-formed uncompressed tar (a first entry name that begins like a compression magic number; GNU volume label / dumpdir entries) was not accepted: "+parts[1], op)
 			}
 		}
 	}
